@@ -26,7 +26,11 @@ CONSTANTS
                         \*   microsecond field
   NegOffsetFix,         \* FALSE: regression - minutes_from_utc without the
                         \*   utcoffset().days == -1 correction
-  CopyKeepsPrecision    \* FALSE: CIMDateTime(other) drops precision (pinned)
+  CopyKeepsPrecision,   \* FALSE: CIMDateTime(other) drops precision (pinned)
+  ForeignTzNorm         \* "keep": CIMDateTime(datetime) keeps the tzinfo object
+                        \*   it is given (tree); "seconds": regression - a tzinfo
+                        \*   that is not a MinutesFromUTC is replaced by
+                        \*   MinutesFromUTC(utcoffset().seconds // 60)
 
 G(name, holds) == IF holds THEN {} ELSE {name}
 Mod(a, b) == a - (a \div b) * b
@@ -102,11 +106,15 @@ FieldStr(x, value, begin, len) ==
        SubSeq(vs, 1, pi) \o Stars(len - pi)
   ELSE vs
 
-(* minutes_from_utc computed from utcoffset() = timedelta(minutes=off),    *)
-(* which python normalises to (days, seconds) with 0 <= seconds < 86400    *)
+(* utcoffset() = timedelta(minutes=off), which python normalises to        *)
+(* (days, seconds) with 0 <= seconds < 86400 (|off| < 1440)                *)
+UtcDays(off) == IF off < 0 THEN -1 ELSE 0
+UtcSecondsDiv60(off) == off - UtcDays(off) * 1440   \* utcoffset().seconds // 60
+
+(* minutes_from_utc computed from that (days, seconds) pair                *)
 MinutesFromUtc(off) ==
-  LET days == IF off < 0 THEN -1 ELSE 0
-      minutes == off - days * 1440 IN   \* utcoffset().seconds / 60
+  LET days == UtcDays(off)
+      minutes == UtcSecondsDiv60(off) IN
   IF days = -1 /\ NegOffsetFix THEN 0 - (1440 - minutes) ELSE minutes
 
 Str(x) ==
@@ -200,6 +208,29 @@ Parse(s, lax) ==
          ELSE Ok(NormIv(d, h, mi, sc, us, p))
   ELSE Bad
 
+(* CIMDateTime(datetime object).  A python datetime carries its UTC offset *)
+(* in a tzinfo object; WHICH class carries it is a dimension of the input  *)
+(* space ("all datetime ... inputs to CIMDateTime, every UTC offset        *)
+(* -999..+999"): none (naive, documented as UTC), pywbem's MinutesFromUTC, *)
+(* or a foreign one - datetime.timezone, a user-defined tzinfo subclass,   *)
+(* a zoneinfo zone (fixed-offset zones Etc/GMT+12 .. Etc/GMT-14).          *)
+TzCarriers == {"naive", "MinutesFromUTC", "timezone", "usertz", "zoneinfo"}
+ForeignTz(c) == c \in {"timezone", "usertz", "zoneinfo"}
+CarrierCan(c, off) ==
+  CASE c = "naive" -> off = 0
+    [] c = "zoneinfo" -> Mod(off, 60) = 0 /\ off >= -720 /\ off <= 840
+    [] OTHER -> off > -1440 /\ off < 1440
+(* __init__, branch isinstance(dtarg, datetime): the wall-clock fields are *)
+(* kept; the offset the object then holds                                  *)
+HeldOffset(c, off) ==
+  IF c = "naive" THEN 0
+  ELSE IF ForeignTz(c) /\ ForeignTzNorm = "seconds" THEN UtcSecondsDiv60(off)
+  ELSE off
+ImplFromDatetime(c, x) == [x EXCEPT !.off = HeldOffset(c, x.off)]
+(* a negative offset wrapped by a day (1440 + off) is itself within +-999  *)
+(* iff off <= 999 - 1440: both sides of that boundary are offset classes   *)
+WrapOffsets == {999 - 1440, 1000 - 1440}
+
 (* CIMDateTime(other) *)
 ImplCopy(x) == IF CopyKeepsPrecision THEN x ELSE [x EXCEPT !.prec = -1]
 
@@ -208,6 +239,12 @@ ImplCopy(x) == IF CopyKeepsPrecision THEN x ELSE [x EXCEPT !.prec = -1]
 RoundTripLaw(x) ==
   /\ Len(Str(x)) = 25
   /\ Parse(Str(x), FALSE) = Ok(x)
+(* the object built from a datetime object prints as the DSP0004 string of *)
+(* the value that was given, whatever tzinfo class carried the offset      *)
+CtorLaw(c, x) ==
+  LET h == ImplFromDatetime(c, x) IN
+  /\ Len(Str(h)) = 25
+  /\ Parse(Str(h), FALSE) = Ok(x)
 (* every x reachable by parsing any string prints and re-parses as itself  *)
 ParseClosedLaw(m) ==
   LET r == Parse(m, TRUE) IN
@@ -229,12 +266,25 @@ Mutations(s) ==
 (*   s        str(x) as symbols                                            *)
 (*   rt       [built, eq, obs] for x2 = CIMDateTime(str(x)); eq = (x2 == x)*)
 (*   inp      the input string (routes "str", "mut"), else << >>           *)
+(*   carrier  routes "datetime": the TzCarriers class of the tzinfo of the *)
+(*            datetime object given (informational), else ""               *)
+(* x is "a CIMDateTime whose value DSP0004 can express" if the value seen  *)
+(* through its attributes is expressible, or if it was built from a        *)
+(* datetime / timedelta OBJECT whose value is expressible (the statement   *)
+(* quantifies over those inputs; dtarg is "the value from which the object *)
+(* is initialized"): then str(x) must be the DSP0004 string of that value. *)
+GivenObject(e) == e.route \in {"datetime", "timedelta"} /\ e.haswant
+                  /\ Expressible(e.want)
 DtFails(e) ==
   IF e.built # "ok" THEN {}
-  ELSE IF ~Expressible(e.obs) THEN {}
+  ELSE IF ~(Expressible(e.obs) \/ GivenObject(e)) THEN {}
   ELSE
     G("DateTime.Str25", Len(e.s) = 25)
     \cup G("DateTime.StrIsDSP0004ForX", Parse(e.s, FALSE) = Ok(e.obs))
+    \cup (IF GivenObject(e)
+          THEN G("DateTime.StrIsDSP0004ForGivenValue",
+                 Parse(e.s, FALSE) = Ok(e.want))
+          ELSE {})
     \cup G("DateTime.RoundTrip.Parses", e.rt.built = "ok")
     \cup (IF e.rt.built # "ok" THEN {} ELSE
             G("DateTime.RoundTrip.Equal", e.rt.eq)
